@@ -613,6 +613,8 @@ class StmtMixin:
                 args.append(it)
             elif p == "old":
                 args.append(frame.old_ns)
+            elif p == "case":
+                args.append(self.lift(getattr(self, "case", None)))
             elif p in frame.locals:
                 args.append(frame.locals[p])
             else:
@@ -640,7 +642,7 @@ class StmtMixin:
         path = self.path
         for n in sorted(names):
             if n in frame.locals:
-                frame.locals[n] = self.fresh_like(frame.locals[n], n)
+                frame.locals[n] = self.fresh_typed(inv, n) if n in inv.types else self.fresh_like(frame.locals[n], n)
         for expr in sorted(mutated):
             try:
                 v = self.eval(ast.parse(expr, mode="eval").body, frame)
@@ -649,7 +651,11 @@ class StmtMixin:
             if isinstance(v, Ref):
                 cell = path.cell(v)
                 if isinstance(cell, SeqCell):
-                    cell.seq = self.fresh_like(cell.seq, expr)
+                    if expr in inv.types:
+                        nv = self.fresh_typed(inv, expr)
+                        cell.seq = path.cell(nv).seq if isinstance(nv, Ref) else nv
+                    else:
+                        cell.seq = self.fresh_like(cell.seq, expr)
                 elif isinstance(cell, MapCell):
                     cell.dom = z3.Array(path.fresh_name(expr + ".dom"), cell.dom.sort().domain(), z3.BoolSort())
                     cell.val = z3.Array(path.fresh_name(expr + ".val"), cell.val.sort().domain(), cell.val.sort().range())
@@ -666,6 +672,15 @@ class StmtMixin:
             except PyRaise:
                 continue
             self.set_attr(base, name, self.fresh_like(cur, expr))
+
+    def fresh_typed(self, inv, name):
+        from .verify import make_symbolic
+        n = self.path.fresh_name("hv")
+        saved = dict(self.path.ex.inputs)
+        v = make_symbolic(self, inv.types[name], f"{name}~{n}")
+        self.path.ex.inputs.clear()
+        self.path.ex.inputs.update(saved)
+        return v
 
     def fresh_like(self, v, hint):
         path = self.path
